@@ -1,5 +1,10 @@
 package main
 
+import (
+	"fmt"
+	"os"
+)
+
 // Goal skolemisation and a small E-matching step modulo linear offsets.
 //
 // Quantified facts produced by contracts typically talk about slice elements,
@@ -33,6 +38,11 @@ func skolemize(goal *Term) *Term {
 type groundIdx struct {
 	byPath map[int][]*Term
 	seen   map[[2]int]bool
+	all    []*Term
+	seenE  map[int]bool
+	selIdx map[string][]*Term // array sort -> ground index terms used in selects
+	seenS  map[string]bool
+	ufArg  map[string][]*Term // "f|pos" -> ground arguments of uninterpreted function f
 }
 
 func collectGround(ts []*Term, g *groundIdx) {
@@ -43,11 +53,34 @@ func collectGround(ts []*Term, g *groundIdx) {
 			return
 		}
 		visited[t.id] = true
+		if t.Op == "app" && (t.Name == "select" || t.Name == "store") && !t.Args[1].open && t.Args[1].Sort != "Int" {
+			k := t.Args[0].Sort + "|" + fmt.Sprint(t.Args[1].id)
+			if !g.seenS[k] {
+				g.seenS[k] = true
+				g.selIdx[t.Args[0].Sort] = append(g.selIdx[t.Args[0].Sort], t.Args[1])
+			}
+		}
+		if t.Op == "app" && !t.open && len(t.Args) > 0 {
+			if _, isUF := TC.decls[t.Name]; isUF {
+				for p, a := range t.Args {
+					k := fmt.Sprintf("%s|%d", t.Name, p)
+					sk := k + "|" + fmt.Sprint(a.id)
+					if !g.seenS[sk] {
+						g.seenS[sk] = true
+						g.ufArg[k] = append(g.ufArg[k], a)
+					}
+				}
+			}
+		}
 		if t.Op == "app" && t.Name == "pidx" && !t.open {
 			k := [2]int{t.Args[0].id, t.Args[1].id}
 			if !g.seen[k] {
 				g.seen[k] = true
 				g.byPath[t.Args[0].id] = append(g.byPath[t.Args[0].id], t.Args[1])
+			}
+			if !g.seenE[t.Args[1].id] {
+				g.seenE[t.Args[1].id] = true
+				g.all = append(g.all, t.Args[1])
 			}
 		}
 		for _, a := range t.Args {
@@ -59,22 +92,48 @@ func collectGround(ts []*Term, g *groundIdx) {
 	}
 }
 
-// positiveForalls finds forall nodes in positive positions of t.
+// positiveForalls finds forall nodes in positive positions of t, each with the guard under
+// which it is asserted (t implies guard => forall).
+type guardedQ struct {
+	q     *Term
+	guard *Term
+}
+
 func positiveForalls(t *Term, out *[]*Term) {
+	var gs []guardedQ
+	positiveForallsG(t, True, &gs)
+	for _, g := range gs {
+		*out = append(*out, g.q)
+	}
+}
+
+func positiveForallsG(t *Term, guard *Term, out *[]guardedQ) {
 	switch {
 	case t.Op == "forall":
 		if !t.open {
-			*out = append(*out, t)
+			*out = append(*out, guardedQ{t, guard})
 		}
 	case t.Op == "app" && t.Name == "=>":
-		positiveForalls(t.Args[1], out)
-	case t.Op == "app" && (t.Name == "and" || t.Name == "or"):
+		positiveForallsG(t.Args[1], And(guard, t.Args[0]), out)
+	case t.Op == "app" && t.Name == "and":
 		for _, a := range t.Args {
-			positiveForalls(a, out)
+			positiveForallsG(a, guard, out)
+		}
+	case t.Op == "app" && t.Name == "or":
+		for i, a := range t.Args {
+			if a.Op == "forall" || (a.Op == "app" && (a.Name == "and" || a.Name == "=>" || a.Name == "or")) {
+				var others []*Term
+				for k, b := range t.Args {
+					if k != i {
+						others = append(others, Not(b))
+					}
+				}
+				positiveForallsG(a, And(append([]*Term{guard}, others...)...), out)
+			}
 		}
 	case t.Op == "app" && t.Name == "ite" && t.Sort == "Bool":
-		positiveForalls(t.Args[1], out)
-		positiveForalls(t.Args[2], out)
+		positiveForallsG(t.Args[1], And(guard, t.Args[0]), out)
+		positiveForallsG(t.Args[2], And(guard, Not(t.Args[0])), out)
 	}
 }
 
@@ -154,58 +213,193 @@ func instantiateFacts(asserts []*Term, limit int) []*Term {
 	for _, a := range asserts {
 		have[a.id] = true
 	}
-	g := &groundIdx{byPath: map[int][]*Term{}, seen: map[[2]int]bool{}}
+	g := &groundIdx{byPath: map[int][]*Term{}, seen: map[[2]int]bool{}, seenE: map[int]bool{}, selIdx: map[string][]*Term{}, seenS: map[string]bool{}, ufArg: map[string][]*Term{}}
 	added := 0
-	for round := 0; round < 2; round++ {
-		collectGround(asserts, g)
+	// quantified facts found so far (instances may contain further quantifiers)
+	var qs []guardedQ
+	pending := asserts
+	tried := map[[3]int]bool{} // (quantifier, binder, instance term)
+	for round := 0; round < 5 && len(pending) > 0; round++ {
+		collectGround(pending, g)
+		for _, a := range pending {
+			positiveForallsG(a, True, &qs)
+		}
 		var news []*Term
-		for _, a := range asserts {
-			var qs []*Term
-			positiveForalls(a, &qs)
-			for _, q := range qs {
-				for _, k := range q.Binds {
-					if k.Sort != "Int" {
+		emit := func(gq guardedQ, k, inst *Term) bool {
+			key := [3]int{gq.q.id, k.id, inst.id}
+			if tried[key] {
+				return true
+			}
+			tried[key] = true
+			var rest []*Term
+			for _, b := range gq.q.Binds {
+				if b != k {
+					rest = append(rest, b)
+				}
+			}
+			full := Imp(gq.guard, Forall(rest, Subst(gq.q.Args[0], map[*Term]*Term{k: inst})))
+			if !have[full.id] && full != True {
+				have[full.id] = true
+				news = append(news, full)
+				added++
+			}
+			return added < limit
+		}
+	outer:
+		for _, gq := range qs {
+			q := gq.q
+			for _, k := range q.Binds {
+				if k.Sort != "Int" {
+					sorts := selectSortsOf(q, k)
+					for so := range sorts {
+						for _, E := range g.selIdx[so] {
+							if !emit(gq, k, E) {
+								break outer
+							}
+						}
+					}
+					continue
+				}
+				for _, key := range ufArgPositions(q, k) {
+					for _, E := range g.ufArg[key] {
+						if E.Sort == k.Sort && !emit(gq, k, E) {
+							break outer
+						}
+					}
+				}
+				pats := patternsOf(q, k)
+				for _, p := range pats {
+					if p.path.open {
 						continue
 					}
-					var pats []idxPattern
-					findPatterns(q.Args[0], k, &pats)
-					done := map[int]bool{}
-					for _, p := range pats {
-						if p.path.open {
+					cands := g.byPath[p.path.id]
+
+					for _, E := range cands {
+						inst := solveFor(p.T, k, E)
+						if inst == nil || inst.open {
 							continue
 						}
-						for _, E := range g.byPath[p.path.id] {
-							inst := solveFor(p.T, k, E)
-							if inst == nil || inst.open || done[inst.id] {
-								continue
-							}
-							done[inst.id] = true
-							var rest []*Term
-							for _, b := range q.Binds {
-								if b != k {
-									rest = append(rest, b)
-								}
-							}
-							body := Subst(q.Args[0], map[*Term]*Term{k: inst})
-							ni := Forall(rest, body)
-							full := Subst(a, map[*Term]*Term{q: ni})
-							if !have[full.id] && full != True {
-								have[full.id] = true
-								news = append(news, full)
-								added++
-								if added >= limit {
-									return append(asserts, news...)
-								}
-							}
+						if !emit(gq, k, inst) {
+							break outer
 						}
 					}
 				}
 			}
 		}
-		if len(news) == 0 {
+		asserts = append(asserts, news...)
+		pending = news
+		if added >= limit {
 			break
 		}
-		asserts = append(asserts, news...)
+	}
+	if os.Getenv("GOVC_DEBUG_INST") != "" {
+		if os.Getenv("GOVC_DEBUG_INST") == "2" {
+			for _, t := range g.all {
+				fmt.Fprintf(os.Stderr, "   idx %s\n", t)
+			}
+		}
+		fmt.Fprintf(os.Stderr, "inst: %d quantified facts, %d instances (limit %d), ground idx %d, selIdx %d\n", len(qs), added, limit, len(g.all), len(g.selIdx))
 	}
 	return asserts
+}
+
+var ufPosCache = map[[2]int][]string{}
+
+// ufArgPositions: the (function, position) pairs where binder k occurs directly as an argument
+// of an uninterpreted function in q's body.
+func ufArgPositions(q, k *Term) []string {
+	key := [2]int{q.id, k.id}
+	if p, ok := ufPosCache[key]; ok {
+		return p
+	}
+	var out []string
+	have := map[string]bool{}
+	seenT := map[int]bool{}
+	var walk func(t *Term)
+	walk = func(t *Term) {
+		if !t.open || seenT[t.id] {
+			return
+		}
+		seenT[t.id] = true
+		if t.Op == "app" {
+			if _, isUF := TC.decls[t.Name]; isUF {
+				for p, a := range t.Args {
+					if a == k {
+						s := fmt.Sprintf("%s|%d", t.Name, p)
+						if !have[s] {
+							have[s] = true
+							out = append(out, s)
+						}
+					}
+				}
+			}
+		}
+		for _, a := range t.Args {
+			walk(a)
+		}
+	}
+	walk(q.Args[0])
+	ufPosCache[key] = out
+	return out
+}
+
+var patCache = map[[2]int][]idxPattern{}
+var selSortCache = map[[2]int]map[string]bool{}
+
+func patternsOf(q, k *Term) []idxPattern {
+	key := [2]int{q.id, k.id}
+	if p, ok := patCache[key]; ok {
+		return p
+	}
+	var pats []idxPattern
+	findPatterns(q.Args[0], k, &pats)
+	patCache[key] = pats
+	return pats
+}
+
+func selectSortsOf(q, k *Term) map[string]bool {
+	key := [2]int{q.id, k.id}
+	if p, ok := selSortCache[key]; ok {
+		return p
+	}
+	sorts := map[string]bool{}
+	seenT := map[int]bool{}
+	var walk func(t *Term)
+	walk = func(t *Term) {
+		if !t.open || seenT[t.id] {
+			return
+		}
+		seenT[t.id] = true
+		if t.Op == "app" && t.Name == "select" && t.Args[1] == k {
+			sorts[t.Args[0].Sort] = true
+		}
+		for _, a := range t.Args {
+			walk(a)
+		}
+	}
+	walk(q.Args[0])
+	selSortCache[key] = sorts
+	return sorts
+}
+
+// skolemizeExists replaces existential quantifiers in positive, non-nested positions of an
+// assumed fact by fresh constants (sound: the fact asserts that such witnesses exist).
+func skolemizeExists(f *Term) *Term {
+	switch {
+	case f.Op == "exists" && !f.open:
+		m := map[*Term]*Term{}
+		for _, b := range f.Binds {
+			m[b] = Fresh("wit_"+b.Name, b.Sort)
+		}
+		return skolemizeExists(Subst(f.Args[0], m))
+	case f.Op == "app" && f.Name == "=>":
+		return Imp(f.Args[0], skolemizeExists(f.Args[1]))
+	case f.Op == "app" && f.Name == "and":
+		var as []*Term
+		for _, a := range f.Args {
+			as = append(as, skolemizeExists(a))
+		}
+		return And(as...)
+	}
+	return f
 }
